@@ -295,6 +295,24 @@ def _run(case):
                 return np.asarray(mh.daubechies(X, code), np.float64)
             return np.asarray(mh.idaubechies(X, code), np.float64)
         Af, Bf = A.astype(np.float64), B.astype(np.float64)
+        if case.get('aexp') is not None:
+            # homogeneity far from 1: f scaled by a power of two into the subnormal range (or towards the overflow threshold).
+            # Scaling by 2^e is exact, so T(2^e f) = 2^e T(f) up to the rounding of subnormal results: judged RELATIVE to the
+            # scaled magnitude (the absolute allowances below are floored at 1 and cannot see values of 1e-310)
+            s_ = 2.0 ** int(case['aexp'])
+            comb = (s_ * Af).astype(np.float32 if dt == 'float32' else np.float64)
+            ta, tc = T(A), T(comb)
+            untouched(name)
+            ref = s_ * ta
+            m_ = float(np.abs(ref).max()) if ref.size else 0.0
+            if np.isfinite(m_) and m_ > 0:
+                err = float(np.abs(tc - ref).max())
+                # results in the subnormal range are rounded to multiples of the smallest subnormal (absolute, not relative)
+                ulp0 = 2.0 ** -149 if dt == 'float32' else 2.0 ** -1074
+                if not err <= 1e-4 * m_ + 256 * ulp0:
+                    f.append(dict(kind='property', key=f'linearity:{name}:scale', detail=dict(err=err, magnitude=m_, aexp=case['aexp'], code=code)))
+            req.append((_line(name, A, pe, ci), ta, _mtol(dt, A, ta) * 8, name))
+            return f, req, bool(np.any(A != 0))
         comb = (a * Af + b * Bf).astype(np.float32 if dt == 'float32' else np.float64)
         ta, tb, tc = T(A), T(B), T(comb)
         untouched(name)
@@ -574,6 +592,10 @@ def cases(rng, tier):
             c = dict(kind='lin', dtype=dtype, shape=shape, name=rng.choice(['haar', 'ihaar', 'daubechies', 'idaubechies']),
                      data=_values(rng, n, dtype), data2=_values(rng, n, dtype), a=float(rng.randint(-4, 4)),
                      b=float(rng.randint(-4, 4)), code=rng.choice(CODES), pe=rng.random() < 0.5, layout=layout)
+            if rng.random() < 0.15:
+                # small integers times 2^e: exactly representable, subnormal (or huge) after scaling
+                c['data'] = [float(rng.randint(-50, 50)) for _ in range(n)]
+                c['aexp'] = rng.choice([-1040, -1060, -1030, 900] if dtype == 'float64' else [-137, -135, -133, 100])
         out.append(c)
     # memory-level cases: odd and even sides, eleven layouts, the four wrappers, inline on/off (Model/C17Mem.lean)
     for i in range(dict(quick=700, thorough=15000, search=3000)[tier]):
